@@ -105,6 +105,19 @@ def bounds_of(c):
             if b is not None: out.append(b)
     return out
 
+def mentioned_bounds(c, groups):
+    """Every bound mentioned by the constraint: the bounds of each clause parsed on its own (so that bounds
+    which disappear when adjacent ranges are merged still count) plus those of the parsed object."""
+    from poetry.core.constraints.version.parser import parse_single_constraint
+    out = list(bounds_of(c)) if not isinstance(c, Exception) else []
+    for g in groups:
+        for cl in g:
+            try:
+                out += bounds_of(parse_single_constraint(cl))
+            except Exception:  # noqa
+                pass
+    return out
+
 def regular(v, bounds):
     return all(v == e or (v.epoch, v.release) != (e.epoch, e.release) for e in bounds)
 
